@@ -49,3 +49,11 @@ Print Assumptions C20_realised.
 (* Isolation: a lens' term is the value of a call whose only inputs are that lens' own object (with its own _prior field) and the
    shared hyper-parameters; no other lens' prior list occurs in it. This is immediate from the form of C20_realised (the statement
    mentions one lens object) and from C07_additive (the sample value is the sum of such calls). *)
+
+(* a prior on one lens never reaches another lens through the code that EMITS the per-lens prior list: no function of this property
+   (the prior class, the single-draw pipeline, the four hierarchy_configuration emitters) writes in place through a parameter whose
+   default is a mutable object - so a default list is never shared state between two calls / two lenses (cf. coq/Base/Defaults.v) *)
+Require Import Py.Defaults.
+Theorem C20_no_shared_default_state : all_defaults_safe src_fundefs = true.
+Proof. vm_compute. reflexivity. Qed.
+Print Assumptions C20_no_shared_default_state.
